@@ -710,6 +710,9 @@ func filterRow(f *btpb.RowFilter, r *btpb.Row) (bool, error) {
 	case *btpb.RowFilter_CellsPerRowLimitFilter:
 		// Grab the first n cells in the row.
 		lim := int(f.CellsPerRowLimitFilter)
+		if lim < 0 {
+			return false, status.Errorf(codes.InvalidArgument, "cells_per_row_limit_filter must not be negative")
+		}
 		for _, fam := range r.Families {
 			for _, col := range fam.Columns {
 				if len(col.Cells) > lim {
